@@ -28,6 +28,8 @@ pub use microprogram_ram::{MicroprogramRam, Word};
 pub(crate) use raw::Interrupt;
 pub use raw::{RawMachine, Signals, State};
 #[cfg(feature = "verif-hooks")]
+pub use board::VerifBoard;
+#[cfg(feature = "verif-hooks")]
 pub use bus::VerifBus;
 #[cfg(feature = "verif-hooks")]
 pub use raw::VerifRaw;
